@@ -285,6 +285,12 @@ func c15Query(r *core.Run, s *sim.Sim, sig string) {
 		if rng.Intn(3) == 0 {
 			bm.Amount = 0 // wallets restore with B_ and id only
 		}
+		switch rng.Intn(6) {
+		case 0:
+			bm.Id = "" // what the mint signed is identified by B_: the id a client writes next to it does not matter
+		case 1:
+			bm.Id = s.E.Active().Id // e.g. a wallet that labels old outputs with the keyset that is active now
+		}
 		rq = append(rq, rent{bm, rec, "signed"})
 		interesting = true
 	}
